@@ -154,8 +154,14 @@ def rule_d2(ctx) -> None:
                     val = s.value
                     if isinstance(val, ast.BinOp) and isinstance(val.op, ast.Mult) and {x for x in names_in(val)} >= {v, ratio_name}:
                         # guards inside the loop: only `k in new_data`
-                        g = [c for c, p in acfg.guards(acfg.node_of(s))]
-                        extra = [unparse(c) for c in g if not (isinstance(c, ast.Compare) and isinstance(c.ops[0], ast.In)) and "can_match" not in unparse(c)]
+                        extra = []
+                        for c, pol in acfg.guards(acfg.node_of(s)):
+                            nc = normal_compare(c, pol)
+                            if nc is not None and nc[1] == "in":
+                                continue  # `k in new_data` (also written as `if k not in new_data: continue`)
+                            if any(isinstance(x, ast.Call) and (ctx.res.resolve_callee(x, ar) or ("", ""))[1] == can_match.qualname for x in ast.walk(c)):
+                                continue
+                            extra.append(unparse(c))
                         sub_ok = not extra
                         sub_node = s
     ctx.instance("C08-D2", "apply_rule subtracts ratio*count for every key of the rule", ar.loc(sub_node) if sub_node else ar.loc(), ok=sub_ok)
@@ -297,16 +303,39 @@ def rule_d4(ctx) -> None:
     prog = ctx.prog
     gv = prog.func(IMPUTER + ".get_and_validate_smiles")
     ok1 = False
+
+    def is_field(e, key):
+        return isinstance(e, ast.Subscript) and const_str(e.slice) == key and isinstance(e.value, ast.Name)
+
+    def repeat_expr(e):
+        """[item['smiles']] * item['Ratio']  (either operand order)"""
+        if isinstance(e, ast.BinOp) and isinstance(e.op, ast.Mult):
+            for a, b in ((e.left, e.right), (e.right, e.left)):
+                if isinstance(a, ast.List) and len(a.elts) == 1 and is_field(a.elts[0], "smiles") and is_field(b, "Ratio") and a.elts[0].value.id == b.value.id:
+                    return True
+        return False
+
     for n in own_nodes(gv.node):
-        if isinstance(n, ast.Call) and isinstance(n.func, ast.Attribute) and n.func.attr in ("extend", "append"):
-            t = unparse(n)
-            if "['smiles']" in t and "['Ratio']" in t and "*" in t:
+        # canonical form: a comprehension whose inner generator runs over the repeated smiles
+        if isinstance(n, ast.ListComp) and len(n.generators) >= 2 and repeat_expr(n.generators[-1].iter) and isinstance(n.elt, ast.Name) and unparse(n.generators[-1].target) == n.elt.id:
+            ok1 = True
+        # ... or the element itself repeated by an inner range(item['Ratio'])
+        if isinstance(n, ast.ListComp) and len(n.generators) >= 2 and is_field(n.elt, "smiles"):
+            it = n.generators[-1].iter
+            if isinstance(it, ast.Call) and getattr(it.func, "id", "") == "range" and len(it.args) == 1 and is_field(it.args[0], "Ratio"):
                 ok1 = True
+        if isinstance(n, ast.Call) and isinstance(n.func, ast.Attribute) and n.func.attr == "extend" and n.args and repeat_expr(n.args[0]):
+            ok1 = True
     ctx.instance("C08-D4", "get_and_validate_smiles repeats item['smiles'] item['Ratio'] times", gv.loc(), ok=ok1)
     if not ok1:
         ctx.finding("C08-D4", "SyntheticRuleImputer.get_and_validate_smiles:repeat", gv.loc(), "the appended text is no longer the solution's smiles repeated Ratio times")
     rets = [n for n in own_nodes(gv.node) if isinstance(n, ast.Return) and n.value is not None and not (isinstance(n.value, ast.Constant) and n.value.value is None)]
-    ok1b = all(isinstance(r.value, ast.Name) and any("join" in unparse(v) for _, v, _i in assignments_to(gv, r.value.id)) for r in rets) and bool(rets)
+    def joined(e):
+        if isinstance(e, ast.IfExp):  # `joined if valid else None`
+            return all(joined(x) or (isinstance(x, ast.Constant) and x.value is None) for x in (e.body, e.orelse)) and (joined(e.body) or joined(e.orelse))
+        return isinstance(e, ast.Name) and any(isinstance(c_, ast.Call) and isinstance(c_.func, ast.Attribute) and c_.func.attr == "join" for _, v, _i in assignments_to(gv, e.id) for c_ in ast.walk(v))
+
+    ok1b = all(joined(r.value) for r in rets) and bool(rets)
     ctx.instance("C08-D4", "returned text is the '.'-join of those parts", gv.loc(), ok=ok1b)
     if not ok1b:
         ctx.finding("C08-D4", "SyntheticRuleImputer.get_and_validate_smiles:return", gv.loc(), "get_and_validate_smiles returns something other than the joined database compounds")
